@@ -7,7 +7,7 @@
 EXTENDS RAStack, TraceLib
 
 VARIABLE l
-tvars == <<v, l>>
+tvars == <<v, scale, l>>
 T == TraceLog
 Ev == T[l]
 IsEv(e) == l <= Len(T) /\ Ev.e = e /\ l' = l + 1
@@ -16,16 +16,16 @@ StrictOrder == "X05_ORDER" \in DOMAIN IOEnv /\ IOEnv.X05_ORDER = "1"
 StrictBytes == "X05_BYTES" \in DOMAIN IOEnv /\ IOEnv.X05_BYTES = "1"
 
 TInit == Init /\ l = 1 /\ InitProgress
-TReset == IsEv("Reset") /\ Ev.c = "stack" /\ B(SaneObs(Ev.st)) /\ View(Ev.st) = Empty /\ v' = Empty
-TNew == IsEv("New") /\ NewOk(Ev.size, Ev.align, Ev.flags, Ev.base, Ev.r, Ev.st)
-TUse == IsEv("Use") /\ UseOk(Ev.i, Ev.k, Ev.st)
-TFlag == IsEv("Flag") /\ FlagOk(Ev.i, Ev.f, Ev.st)
-TSetOff == IsEv("SetOff") /\ SetOffOk(Ev.i, Ev.off, Ev.st)
-TSetBase == IsEv("SetBase") /\ SetBaseOk(Ev.i, Ev.base, Ev.st)
-TCalc == IsEv("Calc") /\ (CalcOk(Ev.r, Ev.st, StrictOrder, StrictBytes) \/ CalcRefused(Ev.r, Ev.st))
-TAdjust == IsEv("Adjust") /\ AdjustOk(Ev.d, Ev.r, Ev.st)
-TResetAlloc == IsEv("ResetAlloc") /\ ResetOk(Ev.st)
-TBig == IsEv("BigCalc") /\ BigCalcOk(Ev)
+TReset == IsEv("Reset") /\ Ev.c = "stack" /\ B(SaneObs(Ev.st)) /\ View(Ev.st) = Empty /\ v' = Empty /\ scale' = Ev.scale
+TNew == IsEv("New") /\ NewOk(Ev.size, Ev.align, Ev.flags, Ev.base, Ev.r, Ev.st) /\ UNCHANGED scale
+TUse == IsEv("Use") /\ UseOk(Ev.i, Ev.k, Ev.st) /\ UNCHANGED scale
+TFlag == IsEv("Flag") /\ FlagOk(Ev.i, Ev.f, Ev.st) /\ UNCHANGED scale
+TSetOff == IsEv("SetOff") /\ SetOffOk(Ev.i, Ev.off, Ev.st) /\ UNCHANGED scale
+TSetBase == IsEv("SetBase") /\ SetBaseOk(Ev.i, Ev.base, Ev.st) /\ UNCHANGED scale
+TCalc == IsEv("Calc") /\ (CalcOk(Ev.r, Ev.st, StrictOrder, StrictBytes) \/ CalcRefused(Ev.r, Ev.st)) /\ UNCHANGED scale
+TAdjust == IsEv("Adjust") /\ AdjustOk(Ev.d, Ev.r, Ev.st) /\ UNCHANGED scale
+TResetAlloc == IsEv("ResetAlloc") /\ ResetOk(Ev.st) /\ UNCHANGED scale
+TBig == IsEv("BigCalc") /\ BigCalcOk(Ev) /\ UNCHANGED scale
 
 TNext == TReset \/ TNew \/ TUse \/ TFlag \/ TSetOff \/ TSetBase \/ TCalc \/ TAdjust \/ TResetAlloc \/ TBig
 TSpec == TInit /\ [][TNext]_tvars
